@@ -371,17 +371,126 @@ def r06d(ctx):
                            "read back as the wrong Python type")
 
 
+def r06e(ctx):
+    """Bulk setters encode every input value on its own.
+
+    A value of a bulk setter reaches the XML only through its own typed-value encoder call
+    (`Cell(value, …)`, `set_value(…, value)`).  Whether two *Python* values are "the same" says
+    nothing about their ODF form (True == 1 == 1.0, Decimal('1.10') == Decimal('1.1')), so an
+    iteration that does not hand its element to the encoder — skipped, merged into the
+    previous cell, filtered by a comprehension `if` — changes type or lexical form.  Rule:
+    in every loop over input values that contains an encoder call on the loop element, each
+    path through one iteration passes such a call; comprehensions carry no filter.
+    """
+    from ..paths import cfg_of, node_of
+    repo = ctx.repo
+    ctx.rule("R06e", "bulk setters hand every input value to its own typed-value encoder call (no value skipped, merged or filtered)", floor=4)
+    ENC = {"Cell", "set_value", "set_cell_value"}
+
+    def derived(body_nodes, seeds):
+        names = set(seeds)
+        for _ in range(3):
+            for n in body_nodes:
+                for a in ast.walk(n):
+                    if isinstance(a, ast.Assign) and len(a.targets) == 1 and isinstance(a.targets[0], ast.Name) \
+                            and any(isinstance(x, ast.Name) and x.id in names for x in ast.walk(a.value)):
+                        names.add(a.targets[0].id)
+        return names
+
+    def targets(t):
+        return {x.id for x in ast.walk(t) if isinstance(x, ast.Name)}
+
+    def enc_calls(scope_nodes, names):
+        out = []
+        for n in scope_nodes:
+            for c in ast.walk(n):
+                if isinstance(c, ast.Call) and call_name(c) in ENC:
+                    args = list(c.args) + [k.value for k in c.keywords]
+                    # the value argument itself is the element (not merely an index derived from it)
+                    if any(isinstance(x, ast.Name) and x.id in names for a in args for x in ast.walk(a)):
+                        out.append(c)
+        return out
+
+    n_inst = 0
+    for f in repo.all_funcs():
+        if f.file not in ("src/odfdo/row.py", "src/odfdo/table.py"):
+            continue
+        for n in walk_no_nested(f.node):
+            if isinstance(n, ast.For):
+                names = derived(n.body, targets(n.target))
+                encs = enc_calls(n.body, names)
+                if not encs:
+                    continue
+                n_inst += 1
+                cfg = cfg_of(f)
+                head = node_of(cfg, n)
+                via = [node_of(cfg, c) for c in encs]
+                via = [v for v in via if v is not None]
+                first = node_of(cfg, n.body[0])
+                cex = cfg.path_avoiding(first, head, via, follow_exc=False) if first is not None and head is not None else None
+                ok = cex is None
+                ctx.instance("R06e", f"{f.file}:{f.ident}", f"for {norm(n.target, 20)} in {norm(n.iter, 30)}: every iteration reaches {norm(encs[0], 40)}",
+                             ok=ok, nontrivial=True, line=n.lineno)
+                if not ok:
+                    skip = [x for x in cex if x.stmt is not None][-1]
+                    ctx.report("R06e", f, skip.stmt, f"iteration over {norm(n.iter, 30)} can end at `{norm(skip.stmt, 50)}` without encoding its element",
+                               f"{f.ident} lets an input value through without its own typed-value encoder call: the cell then carries the type and lexical form "
+                               f"of another value (Python equality or truthiness is not ODF identity: True == 1 == 1.0, Decimal('1.10') == Decimal('1.1'))")
+            elif isinstance(n, (ast.ListComp, ast.GeneratorExp, ast.SetComp)):
+                names = set()
+                for g in n.generators:
+                    names |= targets(g.target)
+                encs = enc_calls([n.elt], names)
+                if not encs:
+                    continue
+                n_inst += 1
+                filt = [i for g in n.generators for i in g.ifs]
+                whole = n.elt is encs[0] or (isinstance(n.elt, ast.Call) and encs[0] in ast.walk(n.elt) and not any(isinstance(x, ast.IfExp) for x in ast.walk(n.elt)))
+                ok = not filt and whole
+                ctx.instance("R06e", f"{f.file}:{f.ident}", f"[{norm(n.elt, 40)} for {norm(n.generators[0].target, 15)} in {norm(n.generators[0].iter, 25)}] unfiltered",
+                             ok=ok, nontrivial=False, line=n.lineno)
+                if not ok:
+                    ctx.report("R06e", f, n, f"comprehension over {norm(n.generators[0].iter, 25)} filters or conditionally encodes its elements",
+                               f"{f.ident} drops or substitutes input values before they are encoded")
+    if n_inst == 0:
+        raise AnalysisError("R06e: no bulk setter loop found in row.py/table.py")
+
+
 def run(ctx):
     r06a(ctx)
     r06b(ctx)
     r06c(ctx)
     r06d(ctx)
+    r06e(ctx)
 
 
 from ..selftest import Seed, unparse_seed  # noqa: E402
 
 _ET = "src/odfdo/element_typed.py"
 SEEDS = [
+    Seed("Row.set_values merges neighbours that compare equal in Python", "fault", "src/odfdo/row.py", '            cells = [\n                Cell(value, style=style, cell_type=cell_type, currency=currency)\n                for value in values\n            ]\n',
+         """            cells = []
+            for idx, value in enumerate(values):
+                if cells and value == values[idx - 1]:
+                    cells[-1]._set_repeated((cells[-1].repeated or 1) + 1)
+                    continue
+                cells.append(Cell(value, style=style, cell_type=cell_type, currency=currency))
+""", "R06e"),
+    Seed("Row.set_values filters falsy values", "fault", "src/odfdo/row.py", '            cells = [\n                Cell(value, style=style, cell_type=cell_type, currency=currency)\n                for value in values\n            ]\n',
+         """            cells = [
+                Cell(value, style=style, cell_type=cell_type, currency=currency)
+                for value in values if value
+            ]
+""", "R06e"),
+    Seed("Table.set_column_values encodes falsy values as empty cells", "fault", "src/odfdo/table.py",
+         "            Cell(value, cell_type=cell_type, currency=currency, style=style)\n            for value in values",
+         "            Cell(value, cell_type=cell_type, currency=currency, style=style) if value else Cell()\n            for value in values", "R06e"),
+    Seed("Row.set_values builds its cells in an explicit loop", "neutral", "src/odfdo/row.py", '            cells = [\n                Cell(value, style=style, cell_type=cell_type, currency=currency)\n                for value in values\n            ]\n',
+         """            cells = []
+            for value in values:
+                cell = Cell(value, style=style, cell_type=cell_type, currency=currency)
+                cells.append(cell)
+"""),
     Seed("meta: date arm before datetime arm", "fault", "src/odfdo/meta.py",
          '''        elif isinstance(value, datetime):
             value_type = "date"
